@@ -42,6 +42,13 @@ fn check_parser<R: PartialEq + std::fmt::Debug>(
     let mut xt = x.to_vec();
     xt.extend_from_slice(t);
     let _ = parse(&noise);
+    // ... and so is a well-formed line of another connection that ended exactly where a later line break of this buffer
+    // lies (a remembered line length or terminator position must not decide where THIS header ends)
+    for lb in later_line_breaks(&xt, h.len()) {
+        if let Some(l) = line_ending_at(lb) {
+            let _ = parse(&l);
+        }
+    }
     match parse(&xt) {
         Some(Ok(r2)) if r2 == r => {}
         Some(other) => {
@@ -81,6 +88,35 @@ fn check_parser<R: PartialEq + std::fmt::Debug>(
         None => {}
     }
     Ok(())
+}
+
+/// Offsets (< 106) of CR LF pairs in `buf` at or behind `from`: at most three.
+fn later_line_breaks(buf: &[u8], from: usize) -> Vec<usize> {
+    let mut out = Vec::new();
+    let mut i = from;
+    while i + 1 < buf.len() && i < 106 && out.len() < 3 {
+        if buf[i] == b'\r' && buf[i + 1] == b'\n' {
+            out.push(i);
+        }
+        i += 1;
+    }
+    out
+}
+
+/// A well-formed UNKNOWN line whose CR stands at offset `cr` (13..=105).
+fn line_ending_at(cr: usize) -> Option<Vec<u8>> {
+    if !(13..=105).contains(&cr) {
+        return None;
+    }
+    let mut l = b"PROXY UNKNOWN".to_vec();
+    if cr > 13 {
+        l.push(b' ');
+        while l.len() < cr {
+            l.push(b'x');
+        }
+    }
+    l.extend_from_slice(b"\r\n");
+    Some(l)
 }
 
 fn v1_len(x: &[u8]) -> Option<usize> {
